@@ -73,9 +73,9 @@ fn all() {
     maybe("c10::rep_b0_w12", || crate::h_engine::c10_rep::<12>(0, 4095));
     maybe("c10::rep_b1_w12", || crate::h_engine::c10_rep::<12>(1, 4095));
     maybe("c10::rep_b100_w40", || crate::h_engine::c10_rep::<40>(100, 40));
-    maybe("c10::rep_b4959_w40", || crate::h_engine::c10_rep::<40>(4959, 4095));
+    maybe("c10::rep_b4959_w40", || crate::h_engine::c10_rep::<40>(4959, 40));
     maybe("c10::rep_b100_w120", || crate::h_engine::c10_rep::<120>(100, 120));
-    maybe("c10::rep_b4879_w120", || crate::h_engine::c10_rep::<120>(4879, 4095));
+    maybe("c10::rep_b4879_w120", || crate::h_engine::c10_rep::<120>(4879, 120));
     maybe("c10::index_inrange", || crate::h_engine::c10_index(2500));
     maybe("c10::index_all", || crate::h_engine::c10_index(u32::MAX));
     maybe("c10::fifty", || crate::h_engine::c10_fifty());
